@@ -2,7 +2,7 @@
 """adopt a confirmed candidate: tools/adopt_seeded.py <ID> [<suffix>]   (/tmp/mut/<ID>-out -> /verif/seeded/<ID>-<suffix>/)"""
 import json, os, re, shutil, sys
 pid = sys.argv[1]; suf = sys.argv[2] if len(sys.argv) > 2 else "1"
-src = f"/tmp/mut/{pid}-out"; dst = f"/verif/seeded/{pid}-{suf}"
+base = os.environ.get("MUT_BASE", "/tmp/mut"); src = f"{base}/{pid}-out"; dst = f"/verif/seeded/{pid}-{suf}"
 log = open(os.path.join(src, "confirm.log")).read()
 m = re.search(r"suite_with_patch_rc=(\d+)", log)
 demos = re.findall(r"demo=(\S+) with_patch_rc=(\d+) without_patch_rc=(\d+)", log)
@@ -21,7 +21,7 @@ meta = {
   "needs_to_manifest": am.get("needs_to_manifest"),
   "origin": "written by a sub-agent that was given the property text and its own scratch worktree only",
   "confirmed_by_me": {
-    "where": f"scratch worktree /tmp/mut/{pid} of /repo (removed afterwards)",
+    "where": f"scratch worktree {base}/{pid} of /repo (removed afterwards)",
     "ran": [
       "git apply patch.diff (on a clean checkout of /repo HEAD)",
       "cargo build --offline",
